@@ -70,6 +70,13 @@ CLAIMED["C04"]["engine"] = "channel+transport"
 CLAIMED["C04"]["tech"] += "; plus TLA+ model Transport.tla (contract of a transport pair: FIFO, no loss before the close is reported) enumerated by TLC, every operation sequence executed on real in-process / TCP / WebSocket pairs, TLC monitor TransObs (C04_TransportOrder, C04_TransportNoLoss)"
 CLAIMED["C13"]["engine"] = "channel+transport"
 CLAIMED["C13"]["tech"] += "; plus Transport.tla sequences on real pairs, TLC monitor TransObs (C13_TransportClosed: an end that closed refuses to send and receive and reports itself as not connected)"
+CLAIMED["C08"]["engine"] = "hs-client+client-life"
+CLAIMED["C08"]["tech"] += "; at the level of the Client facade: Client.Establish against a scripted server whose first connection is answered with another state, TLC monitor CliObs (C08_ClientTruthful)"
+CLAIMED["C09"]["tech"] += "; websocket dial attributes (ws / wss, with and without a TLS configuration): both ends must report the encryption of the URL scheme, TLC monitor TransObs (C09_TransportEncryption)"
+CLAIMED["C13"]["engine"] = "channel+transport+client-life"
+CLAIMED["C13"]["tech"] += "; at the Client facade every connection the client ever made must be seen released by the scripted server (garbage collector off), TLC monitor CliObs (C13_ClientReleases)"
+CLAIMED["C14"]["engine"] = "hs-server+server-life"
+CLAIMED["C14"]["tech"] += "; variants of refused handshakes in which the client resets the connection after its last symbol (server side observed through a hook); the callbacks half of the property also on ServerLife.tla schedules forced on a real Server (outcomes failed / gone / err / stall), TLC monitor SrvObs (C18_CallbacksExact)"
 CLAIMED["C06"]["engine"] = "hs-server+hs-client+channel"
 CLAIMED["C06"]["note"] = HS_NOTE + " Both roles: server role on HsServer behaviours, client role on HsClient behaviours. Established phase: free runs of real sessions (channel engine), sampled schedules."
 CLAIMED["C06"]["tech"] += " and HsClient.tla + C06_ClientSendGuard for the client role; for the end of the established phase Channel.tla (invariant NoDataAfterFinished) checked by TLC and real sessions ended idle / during traffic over five transports with a wire tap on the terminating server and send attempts by both sides afterwards, TLC monitor ChanObs (C06_QuietAfterEnd, C06_NoSendAfterEnd)"
@@ -104,22 +111,22 @@ m = {
            "source_commits": hook_commits, "add_only": True},
  "engines": [
    {"name": "transport", "path": "spec/Transport.tla spec/TransportMC.tla spec/TransProps.tla spec/TransObs.tla harness/transd tools/engines/transport.py",
-    "serves_properties": ["C04", "C13"],
+    "serves_properties": ["C04", "C09", "C13"],
     "kind_free_text": "TLA+ contract of a connected transport pair (in-process, TCP, WebSocket) with every bounded operation sequence enumerated by TLC, each executed on a real pair and compared step by step, TLC trace monitor"},
    {"name": "blocking", "path": "spec/Blocking.tla spec/BlockingMC.tla spec/BlockObs.tla harness/blockd tools/engines/blocking.py",
     "serves_properties": ["C15"],
     "kind_free_text": "TLA+ wait automata of the context-taking operations checked by TLC against the stated bound, each case timed on the real operation, TLC trace monitor"},
    {"name": "client-life", "path": "spec/ClientLife.tla spec/CliObs.tla harness/clid tools/engines/clientlife.py",
-    "serves_properties": ["C19"],
+    "serves_properties": ["C19", "C08", "C13"],
     "kind_free_text": "TLA+ model of the Client's channel cache and listener loop with safety and liveness checked by TLC, fault injection against a real Client, TLC trace monitor"},
    {"name": "channel", "path": "spec/Channel.tla spec/ChannelMC.tla spec/Iso.tla spec/IsoMC.tla spec/ChanProps.tla spec/ChanObs.tla harness/chand tools/engines/chan.py",
-    "serves_properties": ["C04", "C13", "C17"],
+    "serves_properties": ["C04", "C06", "C13", "C17"],
     "kind_free_text": "TLA+ model of the established data path and teardown, exhaustive TLC check, perturbed free runs of real sessions over five transports (process per run), TLC trace monitor"},
    {"name": "mux", "path": "spec/Mux.tla spec/MuxMC.tla spec/MuxProps.tla spec/MuxObs.tla harness/muxd tools/engines/mux.py",
     "serves_properties": ["C20"],
     "kind_free_text": "TLA+ model of the dispatcher, exhaustive TLC enumeration of tables and inbound sequences, one real dispatch per case, TLC trace monitor"},
    {"name": "server-life", "path": "spec/ServerLife.tla spec/ServerLifeMC.tla spec/SrvProps.tla spec/SrvObs.tla harness/srvlife tools/engines/srvlife.py",
-    "serves_properties": ["C18"],
+    "serves_properties": ["C18", "C14"],
     "kind_free_text": "TLA+ model of Server start/serve/stop, exhaustive TLC check, simulated schedules forced on a real Server via hook gates (process per case), TLC trace monitor"},
    {"name": "pending", "path": "spec/Pending.tla spec/PendingMC.tla spec/PendingProps.tla spec/PendObs.tla harness/pend tools/engines/pending.py",
     "serves_properties": ["C05"],
